@@ -739,6 +739,8 @@ class Cache:
                 assert self._txn_id == tid
                 self._txn_id = None
                 sql('ROLLBACK')
+                if filename is not None:
+                    _disk_remove(filename)
             raise
         else:
             if begin:
